@@ -305,6 +305,11 @@ def sym_tokenize(*args, **kwargs):
 
     def norm(v):
         if isinstance(v, (SymInt, SymReal, SymBool)):
+            from . import core as _core
+
+            E = _core.ENGINE
+            if E is not None and getattr(E, "symbolic", False):
+                return f"<z{E.canon(v.z)}>"  # terms the path condition forces equal share a token (as equal values share a hash)
             return f"<z{v.z.get_id()}>"  # hash-consed: equal terms share an id (sexpr() would unfold DAGs)
         if isinstance(v, SymSlice) or builtins.type(v) is builtins.slice:
             return ("slice", norm(v.start), norm(v.stop), norm(v.step))
